@@ -561,6 +561,8 @@ class Engine:
                     return self.const_pi(st)
                 if dotted in ('numpy.float64', 'numpy.uint16', 'numpy.ndarray'):
                     return Val('str', None, dotted)
+                if dotted == 'sys.stdout':
+                    return Val(('opaque', 'stream'), z3.IntVal(1))
                 return Val('func', None, ('named', node))
             if parts[0] in mod.classes:
                 return Val('func', None, ('named', node))
@@ -623,6 +625,7 @@ class Engine:
             if k[0] == 'list' and attr == 'shape':
                 # lists have no .shape: AttributeError (used by the front-end type translation)
                 st.pending_raises.append((z3.BoolVal(True), 'AttributeError', len(st.pc)))
+                st.assume(z3.BoolVal(False))        # execution does not continue past the failing attribute access
                 return vtuple([vint(0), vint(0)])
             return Val('func', None, ('method', base, attr))
         if k == 'func':
